@@ -73,6 +73,11 @@ Proof. unfold has. cbn [existsb]. rewrite Z.eqb_refl. reflexivity. Qed.
 Lemma has_cons_other id id0 l : id <> id0 -> has id (id0 :: l) = has id l.
 Proof. intros H. unfold has. cbn [existsb]. assert (id0 =? id = false) as -> by lia. reflexivity. Qed.
 
+Lemma has_set_add_same id l : has id (if has id l then l else id :: l) = true.
+Proof. destruct (has id l) eqn:E; [exact E|apply has_cons_same]. Qed.
+Lemma has_set_add_other id id0 l : id <> id0 -> has id (if has id0 l then l else id0 :: l) = has id l.
+Proof. intros H. destruct (has id0 l); [reflexivity|apply has_cons_other; exact H]. Qed.
+
 (* deleteExchange: never adds entries; removes one entry of [id0] when there is one *)
 Lemma delete_entries id0 s found expired s1 :
   delete_exchange id0 s = (found, expired, s1) ->
@@ -128,9 +133,9 @@ Proof.
   cbn zeta. destruct (found || expired) eqn:Hfe.
   - cbn [ms_objs add_recheck]. split; [exact Ho|]. split.
     + intros id Hne. rewrite entries_add_recheck. unfold entries. cbn [ms_exch ms_expired].
-      rewrite has_cons_other by exact Hne. apply Hother. exact Hne.
+      rewrite has_set_add_other by exact Hne. apply Hother. exact Hne.
     + rewrite entries_add_recheck. unfold entries in *. cbn [ms_exch ms_expired] in *.
-      rewrite has_cons_same.
+      rewrite has_set_add_same.
       destruct found.
       * pose proof (Hfk eq_refl) as Hf1. rewrite Hf1 in *. cbn [orb zb] in Hsame.
         destruct (has_key id0 (ms_exch s)), (has id0 (ms_expired s)), (has id0 (ms_expired s1)); cbn [zb] in *; lia.
@@ -316,4 +321,32 @@ Proof.
     injection Hs as <-. apply (Hrem (mo_id o) (set_obj s h _)); assumption.
   - destruct (ms_shutdown s); injection Hs as <-; cbn [ms_exch] in Hout; congruence.
   - injection Hs as <-. cbn [push_out ms_exch] in Hout. congruence.
+Qed.
+
+(* The clause of the property for calls that merely TIME OUT is false for the code as it is:
+   a call whose watcher has expired it (inboundExpired) but whose exchange is never shut down
+   (InboundCallResponse.Blackhole, a handler that returns without writing a response) leaves its
+   id in expiredExchanges.  [call_over ls h]: the exchange h was shut down, removed by id, or
+   expired by its watcher. *)
+Definition call_over (ls : list mlabel) (h : Z) : Prop :=
+  In (MShutRemove h) ls \/ In (MPingDone h) ls \/ In (MExpire h) ls.
+
+Theorem mex_drained_after_timeouts_refuted :
+  exists ls s, mrun ms_init ls = Some s /\
+    (forall h, 0 <= h < Z.of_nat (length (ms_objs s)) -> call_over ls h) /\
+    ms_expired s <> [].
+Proof.
+  exists [MNew 5; MExpire 0]. eexists. split; [vm_compute; reflexivity|]. split.
+  - cbn [ms_objs length Z.of_nat]. intros h Hh. assert (h = 0) by lia. subst h.
+    right. right. right. left. reflexivity.
+  - cbn. discriminate.
+Qed.
+
+Lemma mex_drained_prop : forall ls s,
+  mrun ms_init ls = Some s ->
+  (forall o, In o (ms_objs s) -> mo_pc o = 2) ->
+  ms_exch s = [] /\ ms_expired s = [].
+Proof.
+  intros ls s Hr Hall. apply (mex_drained ls s Hr). unfold mex_finished.
+  apply forallb_forall. intros o Ho. apply Z.eqb_eq. exact (Hall o Ho).
 Qed.
